@@ -53,7 +53,7 @@ func runLive(c *core.Ctx, p Plan, workers int) (*outcome, error) {
 	lo.info["asfound_wall_s"] = res.Wall.Seconds()
 	var cex []Behaviour
 	for _, raw := range res.Tagged["CEX"] {
-		b, err := decodeBeh(raw, p.Kinds)
+		b, err := decodeBeh(raw, p)
 		if err != nil {
 			return nil, err
 		}
@@ -156,7 +156,7 @@ func runProps(c *core.Ctx, p Plan, workers int) (*outcome, error) {
 	case res.Violation:
 		txt := "(no history printed)"
 		if raw := res.Tagged["CEX"]; len(raw) > 0 {
-			if b, err := decodeBeh(raw[0], p.Kinds); err == nil {
+			if b, err := decodeBeh(raw[0], p); err == nil {
 				txt = fmt.Sprintf("%s fails %v", behText(p, b.H, -1), b.Pv)
 			}
 		}
